@@ -83,6 +83,17 @@ def cases(tier):
                             a.update(con=con, cgrid=cg, include_first=inf, include_last=inl, method=meth, M=M, N=3)
                             if forbid(a): continue
                             add(a, ["con", "cgrid", "include_first", "include_last", "method", "M", "N"])
+    # SplineMethod (integrator-chain programs): path constraint x refine x include_first/include_last
+    from ..common import have_networkx
+    if have_networkx():
+        for chains in ([1], [2], [1, 2], [3]):
+            for N in (2, 3):
+                for g in ("uniform", "geom"):
+                    for r in (1, 2, 3):
+                        for inc in ((True, True), (False, True), (True, False), (False, False)):
+                            out.append(dict(kind="spline", chains=chains, N=N, grid=g, refine=r, inc=list(inc), dev=["Spline"]))
+                            if r == 1:
+                                out.append(dict(kind="spline", chains=chains, N=N, grid=g, refine=r, inc=list(inc), with_offset=True, dev=["Spline", "offset"]))
     return out
 
 
@@ -97,7 +108,32 @@ def rowcount_check(case, res, tags):
     return []
 
 
+def run_spline(case):
+    import sys
+    from . import c17
+    from .. import core
+    inc = tuple(case["inc"])
+    tags = (["second=next"] if case.get("with_offset") else []) + ["method=Spline", "chains=%s" % case["chains"], "N=%d" % case["N"], "grid=%s" % case["grid"], "refine=%d" % case["refine"], "include_first=%s" % inc[0], "include_last=%s" % inc[1]]
+    vios = []
+    n_refs = 1
+    try:
+        n_missing, n_refs, n_extra = c17.spline_path_rows(case["chains"], case["N"], case["grid"], False, case["refine"], inc, with_offset=bool(case.get("with_offset")))
+        if n_missing:
+            vios.append(dict(sig="missing:spline:path", tags=tags, detail="%d of %d declared instances of x<=3 are not in the NLP" % (n_missing, n_refs)))
+        if n_extra:
+            vios.append(dict(sig="extra:spline:path:excluded-endpoint", tags=tags, detail="%d instances of x<=3 at end points excluded by include_first=%s / include_last=%s are in the NLP" % (n_extra, inc[0], inc[1])))
+    except Exception as e:
+        fr = core.rockit_frame(sys.exc_info()[2])
+        if fr is None and not isinstance(e, (RuntimeError, AssertionError, AttributeError)):
+            raise
+        vios.append(dict(sig="exception:spline:%s" % (fr or type(e).__name__), tags=tags, detail="%s: %s" % (type(e).__name__, str(e)[:200])))
+    return dict(violations=vios, evaluations=n_refs, traces=1, transitions=1, outcome=explore.sha([case["chains"], case["N"], case["grid"], case["refine"], inc, bool(case.get("with_offset")), [v["sig"] for v in vios]]), nontrivial=True,
+                sample=dict(kind="spline", chains=case["chains"], N=case["N"], grid=case["grid"], refine=case["refine"], inc=list(inc)))
+
+
 def run_case(case):
+    if case.get("kind") == "spline":
+        return run_spline(case)
     d = case["d"]
     out = _trans.run_trans(case, OWN, extra_check=rowcount_check)
     # finer tags for known-finding matching
@@ -114,7 +150,7 @@ def run_case(case):
 
 def describe(tier):
     return dict(
-        rule="deviation-bounded enumeration over constraint form x grid option x include_first/last x second constraint x method/N/M/degree/grid/horizon (%d dims) plus the full constraint-dimension sub-product; canonical rows (equalities up to sign, inequalities as sense-preserving slacks incl. bounds) matched as multisets against the placement rule of the statement; unexplained real rows that are not pure time rows are violations; unplaceable constraints must raise; distinct = digest of row fingerprints" % len(DIMS),
+        rule="(SplineMethod: chain programs x N x grid x refine 1..3 x include_first/include_last: instances of the path constraint = the kept refined points, none at an excluded end point, also next to a second constraint with a shifted operand) deviation-bounded enumeration over constraint form x grid option x include_first/last x second constraint x method/N/M/degree/grid/horizon (%d dims) plus the full constraint-dimension sub-product; canonical rows (equalities up to sign, inequalities as sense-preserving slacks incl. bounds) matched as multisets against the placement rule of the statement; unexplained real rows that are not pure time rows are violations; unplaceable constraints must raise; distinct = digest of row fingerprints" % len(DIMS),
         bound="k<=%d deviations + constraint sub-product" % (3 if tier == "thorough" else 2),
         assumptions=["CasADi Function evaluation and Opti bookkeeping are trusted", "generic-point alphabet for the numeric quantifier",
                      "offset operands are only enumerated on the control grid; an algebraic value off the collocation points is the value of the polynomial through the step's collocation values (the definition C07 checks for sampling)"])
